@@ -6,7 +6,7 @@ PROPS = {
         technique="property-based testing (rapid): (a) closed-loop histories of fixed-IP pods recreated under the same name over the real ReconcilePod/ReconcilePodENI, "
                   "(b) generated record/pod populations with last-seen ages around each TTL under the real gcCRPodENIs, (c) generated cloud interface populations "
                   "(tags x age x referenced x status x type) under the real gcSecondaryENI/gcMemberENI with a call-time monitor on every Detach/Delete",
-        rule="(a) TestVerifC11ClosedLoop: C10's history generator with every pod's first interface fixed-IP (TTL >= 5 min or Never); non-trivial as in C10 (recreate / rollback / leave-while-attaching). "
+        rule="(a) TestVerifC11ClosedLoop (the cloud simulator remembers the DeleteOnRelease option of every create call and histories contain the event: ECS instance of a node released): C10's history generator with every pod's first interface fixed-IP (TTL >= 5 min or Never); non-trivial as in C10 (recreate / rollback / leave-while-attaching). "
              "(b) TestVerifC11Retention: 1..3 seeded records (phase drawn from all six, 1..3 allocations each Elastic / Fixed TTL / Fixed Never / unset / unknown strategy, releaseAfter valid, unparsable or negative, "
              "podLastSeen = now - D with D in {0..2 s, TTL - m, TTL + m, 10 x TTL, unset}, m in {3,5,10} s, pod absent / alive / exited / terminating on a drawn node (a quarter of the pods carry no pod-eni annotation and live on the exclusive-ENI node, so outside CRD mode only the node label makes the collector keep them), UID matching or not; only reachable states: a record in Detaching/Deleting never carries the UID of a pod that still exists) and 1..8 actions "
              "(gcCR with optional API fault, pod gone / exit / delete / recreate, ReconcilePod, ReconcilePodENI; a quarter of the gcCR passes have an action interleaved right AFTER the collector took its List snapshot and before it walks it: a whole pod incarnation (recreated, reconciled until Bind, gone, reconciled to Unbind) or a single pod event / reconcile, on a fake client that enforces resourceVersion conflicts), in a third of the cases followed by a script [gcCR (pod observed), pod leaves, reconcilers finish the transition to Unbind, gcCR]; non-trivial = a last-seen age within 30 s of a TTL boundary or >= 2 allocations with different strategies. "
@@ -26,6 +26,7 @@ PROPS = {
                    "the periodic scheduling of the collectors (wait.JitterUntil) is replaced by explicit passes",
         tests=[dict(unit="c10loop", test="TestVerifC11ClosedLoop", quick=1500, thorough=60000),
                dict(unit="c10loop", test="TestVerifC11Retention", quick=4000, thorough=250000),
-               dict(unit="c10loop", test="TestVerifC11LeakGC", quick=4000, thorough=250000)],
+               dict(unit="c10loop", test="TestVerifC11LeakGC", quick=4000, thorough=250000),
+               dict(unit="c10loop", test="TestVerifC11KnownMixedPodInstanceRelease", quick=1, thorough=1, shards=1)],
     ),
 }
